@@ -367,8 +367,8 @@ func (r *Run) Finish() {
 		}
 		sort.Strings(l)
 		obs[k+"_count"] = len(l)
-		if len(l) > 200 {
-			l = l[:200]
+		if len(l) > 60 {
+			l = append(l[:60:60], fmt.Sprintf("... %d more", len(l)-60))
 		}
 		obs[k] = l
 	}
